@@ -453,6 +453,198 @@ fn engine_workload(ctx: &mut Ctx, rng: &mut SRng, run_id: u64, allow_ambiguous_p
     }
 }
 
+/// Engine workload with several blocks in progress at once (pipelined dissemination, repair racing
+/// dissemination, an equivocating leader's second block streaming while children of the first begin).
+/// Constraints kept, as the interface documents them: at most one hash-less (`Pending`) block in progress
+/// per slot; a child begins after its parent has ended, or names a parent the engine never executed.
+fn engine_interleaved(ctx: &mut Ctx, rng: &mut SRng, run_id: u64) {
+    struct Prog {
+        blk: MBlock,
+        ipb: InProgressBlock,
+        seed: [u8; 32],
+        next_slice: usize,
+        dropped: bool,
+        parent_class: &'static str,
+    }
+    let (tx1, mut rx1) = tokio::sync::mpsc::channel(4096);
+    let (tx2, mut rx2) = tokio::sync::mpsc::channel(4096);
+    let mut e1 = DummyExecution::new(tx1);
+    let mut e2 = DummyExecution::new(tx2);
+    let mut executed: BTreeMap<(u64, [u8; 32]), [u8; 32]> = BTreeMap::new();
+    let mut inprog: Vec<Prog> = Vec::new();
+    let mut hist: Vec<Value> = Vec::new();
+    let mut blocks_left = rng.random_range(4..18);
+    let mut finalized_slot = 0u64;
+    let mut steps = 0;
+    while (blocks_left > 0 || !inprog.is_empty()) && steps < 400 {
+        steps += 1;
+        let start_new = blocks_left > 0 && inprog.len() < 3 && (inprog.is_empty() || rng.random_bool(0.4));
+        if start_new {
+            blocks_left -= 1;
+            let slot = rng.random_range(finalized_slot.max(1)..finalized_slot.max(1) + 4);
+            let mut hash = [0u8; 32];
+            rng.fill_bytes(&mut hash);
+            let pending_busy = |s: u64, inprog: &Vec<Prog>| inprog.iter().any(|p| !p.dropped && p.ipb == InProgressBlock::Pending(Slot::new(s)));
+            let known = rng.random_bool(0.35) || pending_busy(slot, &inprog);
+            let candidates: Vec<(u64, [u8; 32])> = executed.keys().filter(|i| i.0 < slot).cloned().collect();
+            let pc = rng.random_range(0..10);
+            let parent: Option<(u64, [u8; 32])> = if pc == 0 {
+                None
+            } else if pc <= 7 && !candidates.is_empty() {
+                // prefer parents in slots where another block is streaming right now
+                let hot: Vec<(u64, [u8; 32])> = candidates.iter().filter(|c| pending_busy(c.0, &inprog)).cloned().collect();
+                Some(if !hot.is_empty() && rng.random_bool(0.7) { hot[rng.random_range(0..hot.len())] } else { candidates[rng.random_range(0..candidates.len())] })
+            } else {
+                let ps = rng.random_range(0..slot);
+                let mut ph = [0u8; 32];
+                rng.fill_bytes(&mut ph);
+                if pending_busy(ps, &inprog) { None } else { Some((ps, ph)) }
+            };
+            let nsl = rng.random_range(0..4);
+            let slices: Vec<Vec<Vec<u8>>> = (0..nsl)
+                .map(|_| {
+                    (0..rng.random_range(0..4))
+                        .map(|_| {
+                            let mut t = vec![0u8; rng.random_range(0..16)];
+                            rng.fill_bytes(&mut t);
+                            t
+                        })
+                        .collect()
+                })
+                .collect();
+            let blk = MBlock { id: (slot, hash), parent, known, slices };
+            let ipb = if known { InProgressBlock::Known(bid(&blk.id)) } else { InProgressBlock::Pending(Slot::new(slot)) };
+            let (seed, parent_class) = match &blk.parent {
+                None => {
+                    let mut g = [0u8; 32];
+                    g.copy_from_slice(crate::wire::hash32(&GENESIS_BLOCK_HASH).as_slice());
+                    (g, "none")
+                }
+                Some(p) => match executed.get(p) {
+                    Some(c) => (*c, if pending_busy(p.0, &inprog) { "executed-while-sibling-streams" } else { "executed" }),
+                    None => (p.1, "never-executed"),
+                },
+            };
+            hist.push(json!({"begin": format!("{}:{}", slot, hex(&hash[..4])), "path": if known {"Known"} else {"Pending"}, "parent": blk.parent.map(|p| format!("{}:{}", p.0, hex(&p.1[..4]))), "parent_class": parent_class}));
+            let r = guarded(|| {
+                for e in [&mut e1, &mut e2] {
+                    e.begin_block(ipb.clone(), blk.parent.as_ref().map(bid));
+                }
+            });
+            ctx.eval();
+            if let Err(p) = r {
+                ctx.violation(format!("C20 engine {}", p.sig()), p.msg, json!({"history": hist}));
+                return;
+            }
+            ctx.count(&format!("engine-interleaved-parent:{parent_class}"));
+            ctx.distinct(format!("engine-interleaved:{}:{}:inprog{}", if known { "known" } else { "pending" }, parent_class, inprog.len()));
+            inprog.push(Prog { blk, ipb, seed, next_slice: 0, dropped: false, parent_class });
+            continue;
+        }
+        if inprog.is_empty() {
+            continue;
+        }
+        if rng.random_bool(0.08) && !executed.is_empty() {
+            let ids: Vec<(u64, [u8; 32])> = executed.keys().cloned().collect();
+            let f = ids[rng.random_range(0..ids.len())];
+            e1.finalize(bid(&f));
+            e2.finalize(bid(&f));
+            finalized_slot = finalized_slot.max(f.0);
+            executed.retain(|id, _| id.0 >= f.0);
+            for p in inprog.iter_mut() {
+                if p.blk.id.0 < f.0 {
+                    p.dropped = true;
+                }
+            }
+            hist.push(json!({"finalize": format!("{}:{}", f.0, hex(&f.1[..4]))}));
+            ctx.count("engine-interleaved-finalize");
+            continue;
+        }
+        let k = rng.random_range(0..inprog.len());
+        if inprog[k].next_slice < inprog[k].blk.slices.len() {
+            let sl = inprog[k].blk.slices[inprog[k].next_slice].clone();
+            inprog[k].next_slice += 1;
+            let ipb = inprog[k].ipb.clone();
+            let r = guarded(|| {
+                for e in [&mut e1, &mut e2] {
+                    e.execute_transactions(ipb.clone(), sl.iter().cloned().map(Transaction).collect());
+                }
+            });
+            ctx.eval();
+            if let Err(p) = r {
+                ctx.violation(format!("C20 engine {}", p.sig()), p.msg, json!({"history": hist}));
+                return;
+            }
+            continue;
+        }
+        let p = inprog.remove(k);
+        hist.push(json!({"end": format!("{}:{}", p.blk.id.0, hex(&p.blk.id.1[..4])), "dropped_by_finalize": p.dropped}));
+        let r = guarded(|| {
+            for e in [&mut e1, &mut e2] {
+                e.end_block(bid(&p.blk.id));
+            }
+        });
+        ctx.eval();
+        if let Err(pp) = r {
+            ctx.violation(format!("C20 engine {}", pp.sig()), pp.msg, json!({"history": hist}));
+            return;
+        }
+        let view = |e: Option<ExecutionEvent>| -> Option<((Slot, BlockHash), usize, StateCommitment)> {
+            match e {
+                Some(ExecutionEvent::BlockExecuted { block_id, result: Ok(r) }) => Some((block_id, r.tx_count, r.state_commitment)),
+                _ => None,
+            }
+        };
+        let (v1, v2) = (view(rx1.try_recv().ok()), view(rx2.try_recv().ok()));
+        if v1 != v2 {
+            ctx.violation("C20 engine not deterministic across two instances (interleaved)", format!("{v1:?} vs {v2:?}"), json!({"history": hist}));
+            return;
+        }
+        if p.dropped {
+            // pruned by a finalization while in progress: whatever the engine does, it must not report a
+            // commitment for a different block
+            if let Some((id, ..)) = &v1 {
+                if *id != bid(&p.blk.id) {
+                    ctx.violation("C20 engine event names another block", format!("{id:?}"), json!({"history": hist}));
+                    return;
+                }
+            }
+            continue;
+        }
+        let all_txs: Vec<Vec<u8>> = p.blk.slices.iter().flatten().cloned().collect();
+        let want = fold(p.seed, &all_txs);
+        match v1 {
+            None => {
+                ctx.violation("C20 engine emitted no BlockExecuted for a completed block (interleaved)", "no event", json!({"history": hist}));
+                return;
+            }
+            Some((id, txc, commitment)) => {
+                if id != bid(&p.blk.id) || txc != all_txs.len() {
+                    ctx.violation("C20 engine event id/tx_count mismatch (interleaved)", format!("{id:?} {txc} expected {}", all_txs.len()), json!({"history": hist}));
+                    return;
+                }
+                if commitment != StateCommitment::from(to_hash(&want)) {
+                    ctx.violation(
+                        format!("C20 engine commitment differs from fold(parent commitment, txs) with blocks in progress parent_class={}", p.parent_class),
+                        format!("block {}:{} reported {commitment:?}, model {}", p.blk.id.0, hex(&p.blk.id.1[..4]), hex(&want)),
+                        json!({"history": hist}),
+                    );
+                    return;
+                }
+            }
+        }
+        if rx1.try_recv().is_ok() {
+            ctx.violation("C20 engine emitted more than one event for a block (interleaved)", "", json!({"history": hist}));
+            return;
+        }
+        let _ = rx2.try_recv();
+        executed.insert(p.blk.id, want);
+    }
+    if ctx.sample_cap() {
+        ctx.sample(json!({"kind": "engine-interleaved-history", "run": run_id, "events": hist.iter().take(8).collect::<Vec<_>>()}));
+    }
+}
+
 pub fn run(ctx: &mut Ctx) -> Result<(), String> {
     let mut rng = ctx.rng("state");
     let runs = ctx.iters(1600, 120_000);
@@ -466,6 +658,14 @@ pub fn run(ctx: &mut Ctx) -> Result<(), String> {
     let runs = ctx.iters(3200, 200_000);
     for r in 0..runs {
         engine_workload(ctx, &mut rng, r, true);
+        if ctx.violations.len() > 20 {
+            break;
+        }
+    }
+    let mut rng = ctx.rng("engine-interleaved");
+    let runs = ctx.iters(3200, 200_000);
+    for r in 0..runs {
+        engine_interleaved(ctx, &mut rng, r);
         if ctx.violations.len() > 20 {
             break;
         }
